@@ -32,8 +32,35 @@ static std::vector<std::string> ownedNames;
 
 static uint16_t nB() { return zonedb::kZoneRegistrySize; }
 static uint16_t nX() { return zonedbx::kZoneRegistrySize; }
-static const basic::ZoneInfo* infoB(int i) { return zonedb::kZoneRegistry[i]; }
-static const extended::ZoneInfo* infoX(int i) { return zonedbx::kZoneRegistry[i]; }
+// Zone numbers n..2n-1 denote "another edition" of zone i = z-n: a distinct ZoneInfo object with the same name and id
+// whose eras are those of another zone (what a second TZ-database edition or a hand-written ZoneInfo looks like to
+// createForZoneInfo / forZoneInfo).
+static std::vector<const basic::ZoneInfo*> altB;
+static std::vector<const extended::ZoneInfo*> altX;
+static const basic::ZoneInfo* infoB(int i) {
+  int n = nB();
+  if (i < n) return zonedb::kZoneRegistry[i];
+  if (altB.empty()) altB.resize(n, nullptr);
+  i -= n;
+  if (!altB[i]) {
+    const basic::ZoneInfo* a = zonedb::kZoneRegistry[i];
+    const basic::ZoneInfo* b = zonedb::kZoneRegistry[(i * 7 + 13) % n];
+    altB[i] = new basic::ZoneInfo{a->name, a->zoneId, a->zoneContext, b->transitionBufSize, b->numEras, b->eras};
+  }
+  return altB[i];
+}
+static const extended::ZoneInfo* infoX(int i) {
+  int n = nX();
+  if (i < n) return zonedbx::kZoneRegistry[i];
+  if (altX.empty()) altX.resize(n, nullptr);
+  i -= n;
+  if (!altX[i]) {
+    const extended::ZoneInfo* a = zonedbx::kZoneRegistry[i];
+    const extended::ZoneInfo* b = zonedbx::kZoneRegistry[(i * 7 + 13) % n];
+    altX[i] = new extended::ZoneInfo{a->name, a->zoneId, a->zoneContext, b->transitionBufSize, b->numEras, b->eras};
+  }
+  return altX[i];
+}
 
 static void reset_all() {
   for (auto p : procs) delete p;
@@ -198,11 +225,11 @@ static std::string handle(const std::string& line) {
     TzMeta m;
     m.kind = procKinds[p];
     if (m.kind == 'b') {
-      if (zi < 0 || zi >= nB()) return "BAD";
+      if (zi < 0 || zi >= 2 * nB()) return "BAD";
       m.info = infoB(zi);
       m.tz = TimeZone::forZoneInfo(infoB(zi), (BasicZoneProcessor*) procs[p]);
     } else {
-      if (zi < 0 || zi >= nX()) return "BAD";
+      if (zi < 0 || zi >= 2 * nX()) return "BAD";
       m.info = infoX(zi);
       m.tz = TimeZone::forZoneInfo(infoX(zi), (ExtendedZoneProcessor*) procs[p]);
     }
@@ -248,7 +275,7 @@ static std::string handle(const std::string& line) {
     else if (how == "info") {
       int zi; in >> zi;
       if (m.db == 'b') {
-        if (zi < 0 || zi >= nB()) return "BAD";
+        if (zi < 0 || zi >= 2 * nB()) return "BAD";
         switch (m.size) {
           case 1: t.tz = ((BasicZoneManager<1>*) m.mgr)->createForZoneInfo(infoB(zi)); break;
           case 2: t.tz = ((BasicZoneManager<2>*) m.mgr)->createForZoneInfo(infoB(zi)); break;
@@ -259,7 +286,7 @@ static std::string handle(const std::string& line) {
         tzs.push_back(t);
         snprintf(buf, sizeof(buf), "%d %d", (int) tzs.size() - 1, (int) t.tz.getType()); return buf;
       } else {
-        if (zi < 0 || zi >= nX()) return "BAD";
+        if (zi < 0 || zi >= 2 * nX()) return "BAD";
         switch (m.size) {
           case 1: t.tz = ((ExtendedZoneManager<1>*) m.mgr)->createForZoneInfo(infoX(zi)); break;
           case 2: t.tz = ((ExtendedZoneManager<2>*) m.mgr)->createForZoneInfo(infoX(zi)); break;
@@ -324,6 +351,8 @@ static std::string handle(const std::string& line) {
   if (cmd == "NZONES") { snprintf(buf, sizeof(buf), "%d %d", (int) nB(), (int) nX()); return buf; }
   return "BADCMD";
 }
+
+static void aba(char db, int zi, int zj, unsigned long long& n, unsigned long long& bad);
 
 // Exhaustive two-step histories on one shared processor (C08 generator 1). No sanitizer needed.
 // pairs <b|x> <zoneIdx> <otherZoneIdx>
@@ -416,8 +445,48 @@ static int pairs(char db, int zi, int zj) {
       }
     }
   }
-  // q(zoneA); q(zoneB); q(zoneA) on one shared processor
-  if (zj >= 0) {
+  // three steps on one zone: q(y1); q(y2); q(y1) for every ordered pair of years (y2 may lie outside the database range:
+  // a failed or different cache fill in between must not change what the first year answers the second time)
+  {
+    static const int ks[3] = {0, 2, 3};
+    for (int y1 : years) for (int y2 : years) {
+      if (y1 == y2) continue;
+      for (int a = 0; a < 3; a++) {
+        reset_all();
+        handle(std::string("PROC ") + db);
+        char b[64]; snprintf(b, sizeof(b), "TZ 0 %d", zi); handle(b);
+        std::string a1 = mkarg(ks[a], y1), a2 = mkarg(ks[(a + y2) % 3], y2);
+        handle("Q 0 " + a1);
+        handle("Q 0 " + a2);
+        std::string got = handle("Q 0 " + a1), want = handle("F 0 " + a1);
+        n++;
+        if (got != want) {
+          if (bad < 10) printf("MISMATCH zone=%d hist=[%s; %s; %s] got=%s fresh=%s\n", zi, a1.c_str(), a2.c_str(), a1.c_str(),
+              got.c_str(), want.c_str());
+          bad++;
+        }
+      }
+    }
+  }
+  if (zj >= 0) aba(db, zi, zj, n, bad);
+  printf("PAIRS zone=%d n=%llu bad=%llu\n", zi, n, bad);
+  return 0;
+}
+
+// q(zoneA); q(zoneB); q(zoneA) on one shared processor
+static void aba(char db, int zi, int zj, unsigned long long& n, unsigned long long& bad) {
+  static const char* kinds[] = {"off", "delta", "abbrev", "odt", "print"};
+  std::vector<int> years;
+  for (int y = 1998; y <= 2051; y++) years.push_back(y);
+  auto mkarg = [&](int k, int y) {
+    char b[64];
+    long long t = (long long) LocalDate::forComponents(y < 1873 ? 1873 : y, 7, 1).toEpochDays() * 86400LL + 43200;
+    if (k == 3) snprintf(b, sizeof(b), "odt %d 7 1 12 0 0", y);
+    else if (k == 4) snprintf(b, sizeof(b), "print");
+    else snprintf(b, sizeof(b), "%s %lld", kinds[k], t);
+    return std::string(b);
+  };
+  {
     // every ordered pair of years (the year the processor holds for A when it is re-bound x the year of the first query
     // for B); all 25 kind pairs when the years are equal, 9 otherwise
     for (int y1 : years) for (int y2 : years) for (int k1 = 0; k1 < 5; k1++) for (int k2 = 0; k2 < 5; k2++) {
@@ -439,13 +508,67 @@ static int pairs(char db, int zi, int zj) {
       }
     }
   }
+}
+
+// rebind <b|x> <zoneA> <zoneB>: only the q(A); q(B); q(A) histories (used for every ordered pair of zones with several eras)
+static int rebind(char db, int zi, int zj) {
+  unsigned long long n = 0, bad = 0;
+  aba(db, zi, zj, n, bad);
   printf("PAIRS zone=%d n=%llu bad=%llu\n", zi, n, bad);
+  return 0;
+}
+
+// eras <b|x>: number of eras of every zone
+static int eras(char db) {
+  int n = db == 'b' ? nB() : nX();
+  for (int i = 0; i < n; i++)
+    printf("ERAS %d %d\n", i, db == 'b' ? (int) basic::ZoneInfoBroker(infoB(i)).numEras() : (int) extended::ZoneInfoBroker(infoX(i)).numEras());
+  return 0;
+}
+
+// alts <b|x> <from> <to>: one manager (cache size 1..4) is handed a zone and another edition of it (a distinct ZoneInfo
+// with the same name and id) through createForZoneInfo, in both orders, with a third zone in between or not
+static int alts(char db, int from, int to) {
+  unsigned long long n = 0, bad = 0;
+  int nz = db == 'b' ? nB() : nX();
+  static const long long ts[3] = {252460800LL + 43200, 489024000LL, 1104537600LL + 15638400LL};   // 2008-01-01, 2015-07-01, 2035-07-01
+  for (int zi = from; zi < to && zi < nz; zi++) for (int size = 1; size <= 4; size++) for (int order = 0; order < 2; order++)
+  for (int between = 0; between < 2; between++) for (int k = 0; k < 3; k++) {
+    reset_all();
+    char b[96];
+    int other = (zi + 1) % nz;
+    snprintf(b, sizeof(b), "MGR %c %d 2 %d %d", db, size, zi < other ? zi : other, zi < other ? other : zi); handle(b);
+    snprintf(b, sizeof(b), "MTZ 0 info %d", order ? zi + nz : zi); handle(b);
+    snprintf(b, sizeof(b), "MTZ 0 info %d", order ? zi : zi + nz); handle(b);
+    snprintf(b, sizeof(b), "MTZ 0 info %d", other); handle(b);
+    static const char* kinds[3] = {"off", "abbrev", "zdt"};
+    std::vector<int> seq = {0};
+    if (between) seq.push_back(2);
+    seq.push_back(1); seq.push_back(0);
+    std::string hist;
+    for (size_t i = 0; i < seq.size(); i++) {
+      snprintf(b, sizeof(b), "%d %s %lld", seq[i], kinds[(k + i) % 3], ts[(k + (i > 0)) % 3]);
+      std::string got = handle(std::string("Q ") + b), want = handle(std::string("F ") + b);
+      hist += std::string(i ? "; " : "") + b;
+      n++;
+      if (got != want) {
+        if (bad < 10) printf("MISMATCH zone=%d hist=[%s] size=%d first=%s got=%s fresh=%s\n", zi, hist.c_str(), size,
+            order ? "other-edition" : "registry-edition", got.c_str(), want.c_str());
+        bad++;
+        break;
+      }
+    }
+  }
+  printf("PAIRS zone=%d n=%llu bad=%llu\n", from, n, bad);
   return 0;
 }
 
 int main(int argc, char** argv) {
   setvbuf(stdout, nullptr, _IOLBF, 0);
   if (argc >= 5 && !strcmp(argv[1], "pairs")) return pairs(argv[2][0], atoi(argv[3]), atoi(argv[4]));
+  if (argc >= 5 && !strcmp(argv[1], "rebind")) return rebind(argv[2][0], atoi(argv[3]), atoi(argv[4]));
+  if (argc >= 5 && !strcmp(argv[1], "alts")) return alts(argv[2][0], atoi(argv[3]), atoi(argv[4]));
+  if (argc >= 3 && !strcmp(argv[1], "eras")) return eras(argv[2][0]);
   char* line = nullptr; size_t cap = 0;
   while (getline(&line, &cap, stdin) > 0) {
     std::string s(line);
